@@ -470,6 +470,46 @@ fn run_partition_via(spec: &Spec, cuts: &[usize], mode: u8) -> Option<Violation>
     }
 }
 
+/// A stream copied in mid-flight (after byte `q`): the clone, an object overwritten with
+/// clone_from (it had received other bytes before), and a Default::default() object that got
+/// the same prefix all continue with the rest of the stream and must end like the original.
+fn run_copies(spec: &Spec, q: usize) -> Option<Violation> {
+    let n = spec.bytes.len();
+    let case = || json!({"stream": bytes_json(&spec.bytes), "cut": q, "name": spec.name, "canonical": spec.canonical});
+    let r = guard(|| -> Result<Vec<(&'static str, SummaryStream)>, String> {
+        let mut s = SummaryStream::new();
+        s.write_all(&spec.bytes[..q]).map_err(|e| format!("write: {}", e))?;
+        let mut c = s.clone();
+        let mut o = SummaryStream::new();
+        // the overwritten object was in the middle of another entry
+        let _ = o.write(&spec.bytes[..(q / 2).max(1).min(n)]);
+        o.clone_from(&s);
+        let mut d = SummaryStream::default();
+        d.write_all(&spec.bytes[..q]).map_err(|e| format!("write on a default object: {}", e))?;
+        let mut out = vec![];
+        for (what, x) in [("the original", &mut s), ("the clone", &mut c), ("the clone_from copy", &mut o), ("the Default::default() object", &mut d)] {
+            x.write_all(&spec.bytes[q..]).map_err(|e| format!("{}: write: {}", what, e))?;
+        }
+        out.push(("the original", s));
+        out.push(("the clone", c));
+        out.push(("the clone_from copy", o));
+        out.push(("the Default::default() object", d));
+        Ok(out)
+    });
+    match r {
+        Err(m) => Some(Violation::new("copies", case(), json!("returns"), json!(format!("panic: {}", m)), "copying a stream panicked")),
+        Ok(Err(e)) => Some(Violation::new("copies", case(), json!("every write succeeds"), json!(e), "a well-formed stream was refused")),
+        Ok(Ok(list)) => {
+            for (what, s) in list {
+                if let Some((note, exp, obs)) = final_check(spec, &s) {
+                    return Some(Violation::new("copies", case(), exp, obs, &format!("{}: {}", what, note)));
+                }
+            }
+            None
+        }
+    }
+}
+
 /// Writes that go on after a failed write: no panic (the statement says nothing else about them).
 fn after_failure(spec: &Spec, q: usize) -> Option<Violation> {
     let r = guard(|| {
@@ -503,6 +543,11 @@ fn replay(doc: &Value) -> Option<Violation> {
         let spec = derived_spec(c["name"].as_str().unwrap_or("replay"), bytes, c["canonical"].as_bool().unwrap_or(true));
         let mode = match c["via"].as_str() { Some("write_all") => 1, Some("write_vectored") => 2, _ => 0 };
         return run_partition_via(&spec, &cuts_of(c), mode);
+    }
+    if doc["kind"] == "copies" {
+        let bytes = unhex(c["stream"]["hex"].as_str().unwrap_or(""));
+        let spec = derived_spec(c["name"].as_str().unwrap_or("replay"), bytes, c["canonical"].as_bool().unwrap_or(true));
+        return run_copies(&spec, c["cut"].as_u64().unwrap_or(1) as usize);
     }
     if doc["kind"] == "after-failure" {
         let bytes = unhex(c["stream"]["hex"].as_str().unwrap_or(""));
@@ -589,6 +634,23 @@ fn main() {
                             Some(v) => t.violation(v),
                         }
                     }
+                }
+            });
+        }
+    }
+    // copies taken in mid-flight: every cut of S1 and S2
+    {
+        run.bound("copies: S1 and S2 copied after every byte (clone, clone_from into a used object, Default::default()), each copy continued to the end");
+        for spec in [&s1, &s2] {
+            let cuts: Vec<usize> = (0..=spec.bytes.len()).collect();
+            par_items(&run, "C09 copies", &cuts, |_, q, t| {
+                t.evals += 4;
+                t.validated += 4;
+                t.states += 1;
+                t.transitions += 8;
+                match run_copies(spec, *q) {
+                    None => t.outcome("copies/ok"),
+                    Some(v) => t.violation(v),
                 }
             });
         }
